@@ -7,6 +7,7 @@
 //	rsa4096.pem    a 4096-bit RSA key (signed requests carrying its certificate and signature exceed 4 KiB)
 //	rsa1sig.pem    rsa1's key under a certificate whose keyUsage is digitalSignature only
 //	rsa1ca.pem     rsa1's key under a self-signed certificate with basicConstraints CA:TRUE (what openssl req -x509 makes)
+//	rsa1024.pem    a 1024-bit RSA key (the shortest crypto/rsa works with: the least room for key transport and signature padding)
 //
 // usage: go run ./cmd/mkfixture <fixtures dir> [only-missing]
 package main
@@ -50,6 +51,16 @@ func main() {
 		}
 		write(dir, "rsaold2", k, &x509.Certificate{SerialNumber: big.NewInt(107), Subject: pkix.Name{CommonName: "rsaold2"},
 			NotBefore: time.Date(1990, 1, 1, 0, 0, 0, 0, time.UTC), NotAfter: time.Date(1999, 6, 1, 0, 0, 0, 0, time.UTC),
+			KeyUsage: x509.KeyUsageDigitalSignature | x509.KeyUsageKeyEncipherment, BasicConstraintsValid: true})
+		return
+	}
+	if len(os.Args) > 2 && os.Args[2] == "rsa1024" {
+		k, err := rsa.GenerateKey(rand.Reader, 1024)
+		if err != nil {
+			panic(err)
+		}
+		write(dir, "rsa1024", k, &x509.Certificate{SerialNumber: big.NewInt(108), Subject: pkix.Name{CommonName: "rsa1024"},
+			NotBefore: time.Date(1990, 1, 1, 0, 0, 0, 0, time.UTC), NotAfter: time.Date(2200, 1, 1, 0, 0, 0, 0, time.UTC),
 			KeyUsage: x509.KeyUsageDigitalSignature | x509.KeyUsageKeyEncipherment, BasicConstraintsValid: true})
 		return
 	}
